@@ -395,6 +395,18 @@ impl LineBuilder {
     pub fn push_space(&mut self) {
         self.push_child(LineComponent::Space);
     }
+    /// Appends a space to the line, if the line so far ends with a token.
+    pub fn push_space_after_token(&mut self) {
+        let active_builder = self.get_active_builder_mut();
+        if active_builder.pending_break_line_points.is_empty()
+            && matches!(
+                active_builder.children.last(),
+                Some(LineComponent::Token(_) | LineComponent::ProtectedZone { .. })
+            )
+        {
+            self.push_space();
+        }
+    }
     /// Appends a user-inserted empty line to the line.
     pub fn push_empty_line_break_line_point(&mut self) {
         self.push_child(LineComponent::BreakLinePoint(BreakLinePointProperties::new_empty_line()));
@@ -1256,7 +1268,11 @@ impl<'a> FormatterImpl<'a> {
                 ast::Trivium::SingleLineComment(_)
                 | ast::Trivium::SingleLineDocComment(_)
                 | ast::Trivium::SingleLineInnerComment(_) => {
-                    if !is_leading {
+                    if is_leading {
+                        // A leading comment may end up on the line of the previous token (when no
+                        // line break point precedes it), where it is parsed as a trailing comment.
+                        self.line_state.line_buffer.push_space_after_token();
+                    } else {
                         self.line_state.line_buffer.push_space();
                     }
                     self.line_state
